@@ -10,6 +10,7 @@ import (
 	"time"
 
 	"pgregory.net/rapid"
+	"verif/backing"
 	"verif/kit"
 	"verif/world"
 )
@@ -25,7 +26,7 @@ func TestMain(m *testing.M) {
 		"virtual clock injected by build overlay", "revocation is copy-on-write in the store (readers holding the old row object are unaffected, like a database)")
 }
 
-var weights = map[string]int{"encrypt": 10, "decrypt": 3, "open": 1, "close": 1, "restart": 1, "advance": 7, "revoke": 4, "rotate": 1, "pressure": 1, "revokeDecryptEncrypt": 2}
+var weights = map[string]int{"encrypt": 10, "decrypt": 3, "open": 1, "close": 1, "restart": 1, "advance": 7, "revoke": 4, "rotate": 1, "pressure": 1, "revokeDecryptEncrypt": 2, "oldThenNew": 2, "revokedSKRotatedEvictedOldNew": 2}
 
 func TestWorld(t *testing.T) {
 	kit.Steps(kit.Pick(40, 60))
@@ -39,7 +40,9 @@ type used struct {
 
 func runHistory(t *rapid.T) {
 	// long expiries so that revocation, not expiry, drives rotation
-	w := world.New(t, world.Options{MaxProcs: 2, SmallPayloads: true, NoRetainAEAD: true, HomogeneousTime: true})
+	opts := world.Options{MaxProcs: 2, SmallPayloads: true, NoRetainAEAD: true, HomogeneousTime: true}
+	defer backing.Use(t, &opts, 30)()
+	w := world.New(t, opts)
 	defer w.Teardown()
 	shapes := map[string]bool{}
 	usedIK := map[string]*used{} // proc|ikid|created -> last use
@@ -83,6 +86,30 @@ func runHistory(t *rapid.T) {
 		}
 		w.Decrypt(s, rec, false, false)
 		w.Encrypt(s, []byte("after revocation"), false, false)
+	}
+	// the parent SK is revoked, the long-lived session rotates as it must, other partitions push
+	// the new IK out of a bounded cache, then an old record is decrypted and the session encrypts
+	acts["revokedSKRotatedEvictedOldNew"] = func(t *rapid.T) {
+		p := w.PickProc("proc")
+		pol := p.Policy
+		s, fresh := w.SessionFor(p, w.Parts[0], true)
+		_, r1 := w.Encrypt(s, []byte("before the revocation"), false, fresh)
+		if r1 == nil {
+			return
+		}
+		ik := w.Store.Get(r1.IKID, r1.IKCreated)
+		if ik == nil || ik.Rec.ParentKeyMeta == nil {
+			return
+		}
+		w.RevokeRow(ik.Rec.ParentKeyMeta.ID, ik.Rec.ParentKeyMeta.Created, true)
+		w.Advance(2*pol.RevokeCheckInterval + pol.CreateDatePrecision + time.Second)
+		w.Encrypt(s, []byte("rotates"), false, false)
+		for _, part := range w.Parts[1:] {
+			o, fr := w.SessionFor(p, part, true)
+			w.Encrypt(o, []byte("pressure"), false, fr)
+		}
+		w.Decrypt(s, r1, false, false)
+		w.Encrypt(s, []byte("after an old record"), false, false)
 	}
 	t.Repeat(kit.Weighted(acts, weights, nil))
 	var ss []string
@@ -172,7 +199,7 @@ func monitor(t *rapid.T, w *world.World, ev *world.Event, shapes map[string]bool
 		case !canReplace:
 			kit.Rec.Label("revoked-sk-no-later-stamp")
 		default:
-			if o := w.RefreshedByDecrypt(ev, f.IK.ID, f.IK.Created, f.T.Add(-iv).UnixNano()-1); o != nil && kit.KnownOpen("C05", "decrypt-refresh-hides-parent-revocation") {
+			if o := w.RefreshedByDecrypt(ev, f.IK.ID, f.IK.Created, f.T.Add(-iv).UnixNano()-1); o != nil && !w.NewerKnownToCache(ev, f.IK.ID, f.IK.Created) && kit.KnownOpen("C05", "decrypt-refresh-hides-parent-revocation") {
 				kit.Rec.Known("decrypt-refresh-hides-parent-revocation", "a decrypt that re-reads a stale cached IK renews the cache entry without validating its parent SK, so the next encrypts keep using an IK whose SK is revoked")
 			} else {
 				fail(t, w, "rec%d produced at %d names IK (%s,%d) whose SK (created %d) was flagged revoked at %d, more than %d revoke-check intervals of %s ago, although keys with a later stamp (%d) can be created",
